@@ -116,6 +116,39 @@ def check(prop_id, tier, seed, only=None):
                     unknown.append(ob)
             if unknown:
                 violations.append((j, unknown))
+    # ---- undecided by the verifier (time-out / memory): execute the same contract harness natively on the real code (ASan/UBSan) for a few
+    # input vectors.  This is testing, not proof: it can only turn 'undecided' into a violation backed by a real failing input; it never makes a job pass.
+    fallback_hits = []
+    still_undecided = []
+
+    def fallback(item):
+        j, reason = item
+        if not (j.native and (reason.startswith("timeout") or "out of memory" in reason)) or os.environ.get("OFV_NO_NATIVE_FALLBACK"):
+            return None
+        rel = re.compile(j.relevant) if j.relevant else None
+        for rs in (0, 1, 2):
+            os.makedirs(rdir, exist_ok=True)
+            repro, text, inp = core.native_replay(j, {}, rdir, "native-fallback-%d" % rs, random_seed=rs)
+            if not repro:
+                continue
+            names = re.findall(r"REPLAY-FAIL (\S+)", text)
+            if "AddressSanitizer" in text or "runtime error" in text:
+                names.append("native.sanitizer_report.pointer_dereference")
+            names = [n for n in names if (rel is None or rel.search(n))]
+            if names:
+                return (names[0], text, inp, rs)
+        return None
+
+    cand = undecided[:24]     # at most 24 undecided jobs are tried natively (each needs a sanitizer build of the library)
+    with ThreadPoolExecutor(max_workers=8) as ex:
+        hits = list(ex.map(fallback, cand))
+    for item, hit in zip(cand, hits):
+        if hit:
+            fallback_hits.append((item[0], item[1], hit))
+        else:
+            still_undecided.append(item)
+    still_undecided += undecided[24:]
+    undecided = still_undecided
     out_lines = []
     for (j, ob, f) in known_hits:
         line = "KNOWN-FINDING: property=%s %s [job %s obligation %s]" % (prop_id, f["text"], j.name, ob["name"])
@@ -146,6 +179,19 @@ def check(prop_id, tier, seed, only=None):
         out_lines.append("  failed obligation: %s/%s (%s) inputs=%s" % (j.name, ob["name"], ob["loc"], json.dumps(r.trace_inputs, sort_keys=True)[:300]))
         nviol += 1
         vio_records.append({"job": j.name, "obligation": ob["name"], "replay": rep_path, "reproduced_natively": repro})
+    for (j, reason, (name, text, inp, rs)) in fallback_hits:
+        rep_path = inp[:-len(".inputs")] + ".replay.txt"
+        with open(rep_path, "w") as f:
+            f.write("property: %s\njob: %s (%s)\nverifier: UNDECIDED (%s)\nfailed obligation (found by native execution of the same contract harness on the real code, input vector %d): %s\n"
+                    % (prop_id, j.name, j.group, reason, rs, name))
+            f.write("functions under contract: %s\nbound: %s\ninputs file: %s (inputs not listed there: %s)\n"
+                    % (", ".join(j.functions), j.bound or "none", inp, "0" if rs == 0 else "derived from OFV_REPLAY_RANDOM=%d" % rs))
+            f.write("\n---- native run ----\n%s\n\n---- verifier commands ----\n%s\n" % (text, "\n".join(j.result.cmds)))
+        out_lines.append("VIOLATION property=%s replay=%s" % (prop_id, rep_path))
+        out_lines.append("  failed obligation: %s/%s (verifier undecided: %s; failing input found natively on the real code)" % (j.name, name, reason))
+        nviol += 1
+        vio_records.append({"job": j.name, "obligation": name, "replay": rep_path, "reproduced_natively": True, "verifier": "undecided: " + reason})
+        j.result.state = "violation"
     for j in jobs:
         if getattr(j.result, "other_failed", None):
             out_lines.append("NOTE property=%s job=%s: %d failed obligation(s) that are clauses of other properties (%s) - decided by those properties' checks"
